@@ -1086,6 +1086,9 @@ class PGMCompiler:
 
         :raise ValueError: Try to move null speed.
         """
+        if not all(math.isfinite(v) for v in (x, y, z, f) if v is not None):
+            raise ValueError('Non-finite value (NaN or infinity) cannot be written to a G-Code file.')
+
         args = []
         if x is not None:
             args.append(f'X{x:.{self.output_digits}f}')
